@@ -196,7 +196,7 @@ theorem ubLoop_sim (c : Board.Case) (u : UbCfg) (start : Nat) (hcap : ∀ T', u.
     1 ≤ f → c.cap + 2 ≤ f + b.st.now →
     match ubLoop u.timeout start c.cap f b with
     | (.ok _, b') => ∃ m', UCtx c u start [1] b' m' ∧ m'.ph = .ubLoop ∧ m'.ubSet = true ∧ m'.hit = some b'.st.now
-        ∧ within u.timeout start (b'.st.now - Params.ubootPollRead) = true
+        ∧ within u.timeout start (b'.st.now - Params.ubootPollRead) = true ∧ b'.st.blacklist = b.st.blacklist
     | (.error e, b') => ∃ m', UFail c b' m' e ∧ m'.ubSet = true := by
   intro f
   induction f with
@@ -221,8 +221,10 @@ theorem ubLoop_sim (c : Board.Case) (u : UbCfg) (start : Nat) (hcap : ∀ T', u.
       obtain ⟨m1, hc1, hw⟩ := ub_rup c u start b m h hf none (some Params.ubootPollRead) (.lit u.prompt) hpr
         (by rw [hph]; rfl) (by rw [hph]; rfl) haw
       have hpr1 : (rd (readUntilPrompt none (some Params.ubootPollRead)) b).2.st.prompt = b.st.prompt := hw.sim.prompt
-      generalize rd (readUntilPrompt none (some Params.ubootPollRead)) b = out at hc1 hw hpr1
+      have hbl1 : (rd (readUntilPrompt none (some Params.ubootPollRead)) b).2.st.blacklist = b.st.blacklist := hw.sim.blacklist
+      generalize rd (readUntilPrompt none (some Params.ubootPollRead)) b = out at hc1 hw hpr1 hbl1
       obtain ⟨r, b1⟩ := out
+      have hbl1 : b1.st.blacklist = b.st.blacklist := hbl1
       have hph1 : m1.ph = .ubLoop := by rw [hw.sim.ph]; exact hph
       have hset1 : m1.ubSet = true := by rw [hw.sim.ubSet]; exact hset
       have hc1 : UCtx c u start [1] b1 m1 := hc1
@@ -232,7 +234,7 @@ theorem ubLoop_sim (c : Board.Case) (u : UbCfg) (start : Nat) (hcap : ∀ T', u.
       cases r with
       | ok v =>
         dsimp only
-        refine ⟨m1, hc1, hph1, hset1, hw.ok rfl, within_of_dead fun T' hT => ?_⟩
+        refine ⟨m1, hc1, hph1, hset1, hw.ok rfl, within_of_dead fun T' hT => ?_, hbl1⟩
         have := hle T' hT
         omega
       | error e =>
@@ -288,10 +290,76 @@ theorem ubLoop_sim (c : Board.Case) (u : UbCfg) (start : Nat) (hcap : ∀ T', u.
           · rw [if_neg hcapd]
             rw [hnow3] at hcapd
             have hp := poll_pos
-            exact ih _ _ hc3 hf3 rfl hset1
+            have := ih _ _ hc3 hf3 rfl hset1
               (by show b2.st.prompt = _; rw [hsim2.prompt, hpr1]; exact hpr)
               (by intro T' hT; rw [hnow3]; have := hle T' hT; omega)
               (by omega) (by rw [hnow3]; omega)
+            have hbl3 : (sleep Params.ubootPollSleep b2).st.blacklist = b.st.blacklist := by
+              show b2.st.blacklist = _; rw [hsim2.blacklist, hbl1]
+            generalize ubLoop u.timeout start c.cap f (sleep Params.ubootPollSleep b2) = out at this
+            obtain ⟨r3, b3⟩ := out
+            cases r3 with
+            | error e => exact this
+            | ok v =>
+              obtain ⟨m', h1, h2, h3, h4, h5, h6⟩ := this
+              exact ⟨m', h1, h2, h3, h4, h5, by rw [h6, hbl3]⟩
         · simp at hT
+
+
+/-! ### `_init_shell`, the machine, `boot` -/
+
+/-- the U-Boot machine is up (before `init()` is reported): what the next steps rely on -/
+structure UUp (c : Board.Case) (b : BS) (m : Mon) : Prop where
+  inv : Inv c b m
+  streams : b.st.streams = []
+  lastT : m.lastT = b.st.now
+  ubLog : b.ubLog = some m.ulog
+  ubSet : m.ubSet = true
+  lnxSet : m.lnxSet = false
+  lnxLog : b.lnxLog = none
+  blacklist : b.st.blacklist = Params.ubootBlacklist
+
+theorem setShell_inv (c : Board.Case) (b : BS) (m : Mon) (p : Option Pat) (bl : List Byte) (h : Inv c b m) :
+    Inv c { b with st := { b.st with prompt := p, blacklist := bl } } m :=
+  { mon := h.mon, calm := ⟨h.calm.wf, h.calm.chunk, h.calm.deaths, h.calm.lp⟩, accept := h.accept, slow := h.slow,
+    slice := h.slice, con := h.con, ulog := h.ulog, llog := h.llog }
+
+theorem closeUb_inv (c : Board.Case) (b : BS) (m : Mon) (h : Inv c b m) : Inv c (closeUb b) m :=
+  ⟨h.mon, h.calm, h.accept, h.slow, h.slice, h.con, h.ulog, h.llog⟩
+
+/-- `UBootShell._init_shell` -/
+theorem ubShell_sim (c : Board.Case) (u : UbCfg) (start : Nat) (b : BS) (m : Mon) (h : UCtx c u start [] b m)
+    (hcap : ∀ T', u.timeout = some T' → start + T' + poll ≤ c.cap)
+    (hf : Fresh b m) (hph : m.ph = .ubLoop) (hset : m.ubSet = true)
+    (hd : ∀ T', u.timeout = some T' → b.st.now ≤ start + T' + poll) :
+    match ubShell u start c.cap b with
+    | (.ok _, b') => ∃ m', UUp c b' m'
+        ∧ step c m' (.ubReady b'.st.now) = some { m' with ph := .ubUp, lastT := b'.st.now }
+    | (.error e, b') => ∃ m', Final c b' m' (some e) := by
+  unfold ubShell
+  simp only
+  have hc0 : UCtx c u start [1] (ubSetShell u (streamOn 1 b)) m :=
+    { inv := setShell_inv c _ m _ _ (streamOn_inv c 1 b m h.inv), cfg := h.cfg
+      streams := by show b.st.streams ++ [1] = [1]; rw [h.streams]; rfl
+      mstart := h.mstart, lastT := h.lastT, lnxSet := h.lnxSet, lnxLog := h.lnxLog, ge := h.ge }
+  have hf0 : Fresh (ubSetShell u (streamOn 1 b)) m := ⟨hf.acc, hf.hit, hf.t0⟩
+  have := ubLoop_sim c u start hcap (c.cap + 2) (ubSetShell u (streamOn 1 b)) m hc0 hf0 hph hset rfl hd
+    (by omega) (by omega)
+  generalize ubLoop u.timeout start c.cap (c.cap + 2) (ubSetShell u (streamOn 1 b)) = out at this
+  obtain ⟨r, b1⟩ := out
+  cases r with
+  | error e =>
+    obtain ⟨m1, hfail, hset1⟩ := this
+    exact ⟨m1, hfail.finalShell hset1⟩
+  | ok v =>
+    obtain ⟨m1, hc1, hph1, hset1, hhit1, hw1, hbl⟩ := this
+    dsimp only
+    refine ⟨m1, ⟨closeUb_inv c _ m1 (streamOff_inv c 1 b1 m1 hc1.inv), ?_, hc1.lastT, ?_, hset1, hc1.lnxSet, hc1.lnxLog, hbl⟩, ?_⟩
+    · show (streamOff 1 b1).st.streams = []
+      rw [streamOff_streams 1 b1 hc1.inv.calm.lp, hc1.streams]; rfl
+    · show some (logOf 1 (streamOff 1 b1).st.fwd) = some m1.ulog
+      rw [(streamOff_inv c 1 b1 m1 hc1.inv).ulog]
+    · show step c m1 (.ubReady b1.st.now) = some { m1 with ph := .ubUp, lastT := b1.st.now }
+      simp [step, hph1, h.cfg, hhit1, hc1.mstart, hw1]
 
 end Board
